@@ -43,6 +43,18 @@ impl<'a> Gen<'a> {
             if let Some(o) = other {
                 // a structure around another variable that is bound elsewhere (possibly in
                 // several ways, possibly later): projection must walk into it per state
+                if g.w.chance(1, 12) {
+                    // compound terms around the variable: directly, nested in another compound,
+                    // behind a list inside a compound
+                    let n = T::I(g.w.range(0, 3));
+                    return match g.w.below(5) {
+                        0 => T::cmp(0, T::V(o), n),
+                        1 => T::cmp(0, n, T::cmp(1, T::I(2), T::V(o))),
+                        2 => T::cmp(1, T::cmp(0, T::V(o), n), T::I(1)),
+                        3 => T::cmp(0, T::list(vec![n, T::V(o)]), T::cmp(0, T::I(1), T::list(vec![T::V(o)]))),
+                        _ => T::list(vec![T::cmp(1, n, T::cmp(1, T::V(o), T::Nil))]),
+                    };
+                }
                 if g.w.chance(1, 4) {
                     return match g.w.below(6) {
                         0 => T::list(vec![T::V(o)]),
@@ -129,7 +141,19 @@ impl<'a> Gen<'a> {
                         vec![G::Prim(PFn::IsNumber, T::V(x), T::Nil), G::Eq(T::V(*o2), T::S("num".into()))],
                     ])
                 }
-                5 | 6 => self.suspension(),
+                5 => self.suspension(),
+                6 => {
+                    if self.w.chance(1, 2) {
+                        self.suspension()
+                    } else {
+                        // is the projected value free of variables as it stands?
+                        let o2 = self.w.pick(outs);
+                        G::Conde(vec![
+                            vec![G::Prim(PFn::IsGround, T::V(x), T::Nil), G::Eq(T::V(*o2), T::S("ground".into()))],
+                            vec![G::Eq(T::V(*o2), T::S("any".into()))],
+                        ])
+                    }
+                }
                 7 if depth > 0 && !unprojected.is_empty() => {
                     // a nested project of a variable that is not projected yet
                     let y = *self.w.pick(unprojected);
@@ -256,7 +280,7 @@ impl Check for C11Check {
     fn rule(&self) -> String {
         "Every 64th case is one of the macro-written surface programs for this property (sim/src/surface.rs: project of two and three names, later body goals, operators and fresh blocks inside the body, variable chains, project in dfs) compared with a hand-listed expectation, under the same schedules. case = program in which 0..n states (via member / conde / leaves with several late answers) reach one or two \
          `project |x, y| { body }` goals, optionally nested or projecting the same variable again, whose bodies read the \
-         projected value non-relationally (square, succ, is-number / is-var tests) and contain suspension points so that they \
+         projected value non-relationally (square, succ, is-number / is-var / is-ground tests; the values are numbers, strings, lists and #[compound] terms, also nested, around another variable) and contain suspension points so that they \
          are resumed after another state has projected, x (leaf timing, yields, reorders) x consumer history over ONE \
          long-lived Query (up to 3 iterators: sequential re-runs, interleaved next() calls, drops half way). Oracle: every \
          iterator that ran to exhaustion returns exactly the reference interpreter's answer multiset (project evaluated on the \
